@@ -345,6 +345,7 @@ func judgeSurvive(res *check.Result, sc *world.Scenario, co *childOut, prop stri
 		alive := lastTick[f.ID] > 0 && endT-lastTick[f.ID] <= 3*tick+500*time.Millisecond
 		if alive {
 			res.Probe("fan-still-regulated")
+			judgeTracking(res, sc, co, prop, f, endT, faultSig)
 			continue
 		}
 		pwm, mode := readFinal(co.WorldDir, sc, f)
@@ -438,4 +439,81 @@ func genC09Init(seed uint64, tier string) *world.Scenario {
 	sc.Variant = "hwmon/hwmon/linear/analysis"
 	sc.Params["index"], sc.Params["total"] = float64(seed%1000), 1000
 	return sc
+}
+
+// judgeTracking: "keeps regulating" means more than ticking. For a fan that is still regulated at the
+// horizon through a linear curve and the direct algorithm, once the last fault lies >= 4 virtual s back
+// the PWM value in force (the last regulating write that reached the fan) must correspond to the
+// temperature of the last 2 s: a loop that silently stopped regulating, or regulates on a stale or
+// poisoned value, is not regulating.
+func judgeTracking(res *check.Result, sc *world.Scenario, co *childOut, prop string, f *world.FanSpec, endT time.Duration, faultSig string) {
+	var cv *world.CurveSpec
+	for i := range sc.Curves {
+		if sc.Curves[i].ID == f.Curve {
+			cv = &sc.Curves[i]
+		}
+	}
+	if cv == nil || cv.Kind != "linear" || f.Algo.Kind != "direct" || f.Algo.MaxChange != nil || f.NeverStop || f.MinPwm != nil || f.MaxPwm != nil {
+		return
+	}
+	var sn *world.SensorSpec
+	for i := range sc.Sensors {
+		if sc.Sensors[i].ID == cv.Sensor {
+			sn = &sc.Sensors[i]
+		}
+	}
+	if sn == nil {
+		return
+	}
+	var lastFault time.Duration
+	lied := false
+	for _, ev := range co.Events {
+		if ev.Fault != "" && !strings.HasPrefix(ev.Fault, "driver.") {
+			lastFault = ev.T
+			if ev.Flags&(kernel.FInitSeq|kernel.FPwmMapSweep) != 0 {
+				switch ev.Fault {
+				case "write.ignored", "read.huge", "read.negative":
+					lied = true
+				}
+				if strings.HasPrefix(ev.Fault, "read.value:") {
+					lied = true
+				}
+			}
+		}
+	}
+	if lied {
+		// the device answered the analysis with a success that was none (ignored write, invented number):
+		// the limits fan2go measured are then legitimately not those of the healthy device
+		res.Probe("tracking-not-judged(device lied during the analysis)")
+		return
+	}
+	// the PWM in force is what the fan shows at the horizon (a loop whose target equals the value
+	// already there rightly writes nothing)
+	inForce, _ := readFinal(co.WorldDir, sc, f)
+	if endT-lastFault < 4*time.Second || endT < 6*time.Second {
+		res.Probe("tracking-not-judged(fault too late)")
+		return
+	}
+	// curve values the temperatures of the last 2 s map to (smoothing and polling make the loop lag)
+	lo, hi := 255, 0
+	for t := endT - 2*time.Second; t <= endT; t += 50 * time.Millisecond {
+		c := int(float64(sn.Prog.At(t)/1000-cv.Min) / float64(cv.Max-cv.Min) * 255)
+		c = max(0, min(255, c))
+		lo, hi = min(lo, c), max(hi, c)
+	}
+	const tol = 8
+	res.Probe("tracking-judged")
+	role := "affected"
+	if f.ID == "fb" {
+		role = "bystander"
+	}
+	if inForce < 0 {
+		res.Probe("tracking-not-judged(pwm unreadable at the horizon)")
+		return
+	}
+	if inForce < lo-tol || inForce > hi+tol {
+		res.Violate(prop, "keeps-regulating", fmt.Sprintf("keeps-regulating off-track fan=%s role=%s fault=%s", f.Kind, role, faultSig), 0, nil,
+			"fan %s is still ticking %s after the last fault, but the PWM in force is %d while the temperatures of the last 2 s ask for %d..%d (+-%d); fault plan: %s",
+			f.ID, endT-lastFault, inForce, lo, hi, tol, faultSig)
+	}
 }
